@@ -300,7 +300,28 @@ class Engine(ExprMixin, CallMixin, SpecMixin, StmtMixin):
         sv = SV(ty, z3.Const("p_" + n, ty.sort()))
         if ty.is_ref:
             st.assume(z3.And(0 <= sv.t, sv.t < st.alloc))
+            self.reachable_allocated(sv, st, 3)
         return sv
+
+    def reachable_allocated(self, sv, st, depth):
+        """everything reachable from a parameter was allocated before the call (heap well-formedness)"""
+        if depth == 0:
+            return
+        ty = sv.ty
+        if ty.kind == "obj":
+            decl = self.reg.classes.get(ty.args[0])
+            if decl is None:
+                return
+            for f, fty in decl["fields"].items():
+                if fty.is_ref:
+                    t = st.field(ty.args[0], f, fty, sv.t)
+                    st.assume(z3.And(0 <= t, t < st.alloc))
+                    self.reachable_allocated(SV(fty, t), st, depth - 1)
+        elif ty.kind == "list" and ty.args[0].is_ref:
+            j = z3.Int(fresh_name("j"))
+            e = st.list_elems(ty, sv.t)
+            st.assume(z3.ForAll([j], z3.Implies(z3.And(0 <= j, j < st.list_len(ty, sv.t)),
+                                                z3.And(0 <= e[j], e[j] < st.alloc)), patterns=[e[j]]))
 
     def exit_obligations(self, c, fn, o):
         entry = self.entry
